@@ -118,53 +118,8 @@
   "count <= 2^30 entries (the real code indexes with int and computes (low+high)/2; more entries = 16 GiB of list would overflow); size <= 2^31",
   "well_formed (strictly ascending keys) is a universally quantified precondition; it enters as INSTANCES: at the lower bounds of the operation key and of the ghost view key and their predecessors, at the ghost index and its predecessor, at the last entry, at the cursor, and at every index probed by the binary search (ghost statement VERIF_GHOST_GET_REFCOUNT_EL_PROBE = assume of the instance at mid; sound because the list has not been written since the state the invariant speaks about); the lower bounds are arbitrary ghost values constrained only by these instances",
   "needs the ghost anchor of hooks-pending/ds.diff in e2fsck/ea_refcount.c",
-  "scenario 'room': count < size on entry (refcount_collapse and the resize are then unreachable: obligations 'never called'); the scenario count == size is unit ea_refcount_increment_shrink / ea_refcount_increment_grow",
+  "scenario 'room': count < size on entry (refcount_collapse and the resize are then unreachable: obligations 'never called'); the scenario count == size is unit ea_refcount_increment_grow (and see there for count == size with an entry dropped)",
   "memmove of the list by a ghost-index specification (C standard semantics at the ghost index, rest of the object havocked)",
-  "the contract of the operation is stated by the harness (ASSUME precondition, CHECK postconditions) \u2014 no frame (assigns) obligations in this unit: enforcing the frame on the insertion paths exceeds the memory limit; the frame of the lookup paths is checked by ea_refcount_fetch / ea_refcount_decrement"
- ],
- "native": false
-}
-*/
-/* VERIF-UNIT
-{
- "name": "ea_refcount_increment_shrink",
- "props": [
-  "C01",
-  "C02"
- ],
- "level": "U/k",
- "tier": "wip",
- "harness": "h_ea_increment",
- "enforce": [],
- "replace": [
-  "refcount_collapse"
- ],
- "includes": [
-  "e2fsck",
-  "lib/support"
- ],
- "defines": [
-  "EXT2_CUSTOM_MEMORY_ROUTINES",
-  "EA_SCEN_SHRINK",
-  "EA_PLAIN"
- ],
- "unwind": 10,
- "unwindset": {
-  "get_refcount_el.0": 3,
-  "get_refcount_el.1": 3
- },
- "unwind_reason": "binary search closed by its invariant (ghost statements, see ea_common.h): two arrivals at the loop head per search; the 'goto retry' loop runs at most twice (one retry after the one collapse); 10 covers the loops of the contract-instrumentation library",
- "functions": [
-  "e2fsck/ea_refcount.c:ea_refcount_increment",
-  "e2fsck/ea_refcount.c:get_refcount_el",
-  "e2fsck/ea_refcount.c:insert_refcount_el"
- ],
- "assumes": [
-  "count <= 2^30 entries (the real code indexes with int and computes (low+high)/2; more entries = 16 GiB of list would overflow); size <= 2^31",
-  "well_formed (strictly ascending keys) is a universally quantified precondition; it enters as INSTANCES: at the lower bounds of the operation key and of the ghost view key and their predecessors, at the ghost index and its predecessor, at the last entry, at the cursor, and at every index probed by the binary search (ghost statement VERIF_GHOST_GET_REFCOUNT_EL_PROBE = assume of the instance at mid; sound because the list has not been written since the state the invariant speaks about); the lower bounds are arbitrary ghost values constrained only by these instances",
-  "needs the ghost anchor of hooks-pending/ds.diff in e2fsck/ea_refcount.c",
-  "realloc / memmove of the list by ghost-index specifications (C standard semantics at the ghost index, rest of the object havocked)",
-  "scenario 'shrink': count == size on entry and refcount_collapse (replaced by its contract: well-formed result, same views, lower bounds reported in ghosts; proved for lists of up to 4 entries by ea_collapse_B4) drops at least one entry; the complementary outcome is unit ea_refcount_increment_grow; the resize is then unreachable (obligation)",
   "the contract of the operation is stated by the harness (ASSUME precondition, CHECK postconditions) \u2014 no frame (assigns) obligations in this unit: enforcing the frame on the insertion paths exceeds the memory limit; the frame of the lookup paths is checked by ea_refcount_fetch / ea_refcount_decrement"
  ],
  "native": false
@@ -209,7 +164,7 @@
   "well_formed (strictly ascending keys) is a universally quantified precondition; it enters as INSTANCES: at the lower bounds of the operation key and of the ghost view key and their predecessors, at the ghost index and its predecessor, at the last entry, at the cursor, and at every index probed by the binary search (ghost statement VERIF_GHOST_GET_REFCOUNT_EL_PROBE = assume of the instance at mid; sound because the list has not been written since the state the invariant speaks about); the lower bounds are arbitrary ghost values constrained only by these instances",
   "needs the ghost anchor of hooks-pending/ds.diff in e2fsck/ea_refcount.c",
   "realloc / memmove of the list by ghost-index specifications (C standard semantics at the ghost index, rest of the object havocked)",
-  "scenario 'grow': count == size on entry and refcount_collapse (replaced by its contract, see ea_collapse_B4) drops nothing; the complementary outcome is unit ea_refcount_increment_shrink; the 'goto retry' back edge is then never taken (unwinding assertion)",
+  "scenario 'grow': count == size on entry and refcount_collapse (replaced by its contract, see ea_collapse_B4) drops nothing; the complementary outcome ('shrink': an entry was dropped, the code jumps back to 'retry' and starts over on the collapsed list, which has room) exceeds the memory limit as one query; it is the composition of a lookup (frame: ea_refcount_fetch), the collapse contract and the 'room' scenario, and is exercised with the real code on small lists by ea_sequence_B; the 'goto retry' back edge is then never taken (unwinding assertion)",
   "the contract of the operation is stated by the harness (ASSUME precondition, CHECK postconditions) \u2014 no frame (assigns) obligations in this unit: enforcing the frame on the insertion paths exceeds the memory limit; the frame of the lookup paths is checked by ea_refcount_fetch / ea_refcount_decrement"
  ],
  "native": false
@@ -253,53 +208,8 @@
   "count <= 2^30 entries (the real code indexes with int and computes (low+high)/2; more entries = 16 GiB of list would overflow); size <= 2^31",
   "well_formed (strictly ascending keys) is a universally quantified precondition; it enters as INSTANCES: at the lower bounds of the operation key and of the ghost view key and their predecessors, at the ghost index and its predecessor, at the last entry, at the cursor, and at every index probed by the binary search (ghost statement VERIF_GHOST_GET_REFCOUNT_EL_PROBE = assume of the instance at mid; sound because the list has not been written since the state the invariant speaks about); the lower bounds are arbitrary ghost values constrained only by these instances",
   "needs the ghost anchor of hooks-pending/ds.diff in e2fsck/ea_refcount.c",
-  "scenario 'room': count < size on entry (refcount_collapse and the resize are then unreachable: obligations 'never called'); the scenario count == size is unit ea_refcount_store_shrink / ea_refcount_store_grow",
+  "scenario 'room': count < size on entry (refcount_collapse and the resize are then unreachable: obligations 'never called'); the scenario count == size is unit ea_refcount_store_grow (and see there for count == size with an entry dropped)",
   "memmove of the list by a ghost-index specification (C standard semantics at the ghost index, rest of the object havocked)",
-  "the contract of the operation is stated by the harness (ASSUME precondition, CHECK postconditions) \u2014 no frame (assigns) obligations in this unit: enforcing the frame on the insertion paths exceeds the memory limit; the frame of the lookup paths is checked by ea_refcount_fetch / ea_refcount_decrement"
- ],
- "native": false
-}
-*/
-/* VERIF-UNIT
-{
- "name": "ea_refcount_store_shrink",
- "props": [
-  "C01",
-  "C02"
- ],
- "level": "U/k",
- "tier": "wip",
- "harness": "h_ea_store",
- "enforce": [],
- "replace": [
-  "refcount_collapse"
- ],
- "includes": [
-  "e2fsck",
-  "lib/support"
- ],
- "defines": [
-  "EXT2_CUSTOM_MEMORY_ROUTINES",
-  "EA_SCEN_SHRINK",
-  "EA_PLAIN"
- ],
- "unwind": 10,
- "unwindset": {
-  "get_refcount_el.0": 3,
-  "get_refcount_el.1": 3
- },
- "unwind_reason": "binary search closed by its invariant (ghost statements, see ea_common.h): two arrivals at the loop head per search; the 'goto retry' loop runs at most twice (one retry after the one collapse); 10 covers the loops of the contract-instrumentation library",
- "functions": [
-  "e2fsck/ea_refcount.c:ea_refcount_store",
-  "e2fsck/ea_refcount.c:get_refcount_el",
-  "e2fsck/ea_refcount.c:insert_refcount_el"
- ],
- "assumes": [
-  "count <= 2^30 entries (the real code indexes with int and computes (low+high)/2; more entries = 16 GiB of list would overflow); size <= 2^31",
-  "well_formed (strictly ascending keys) is a universally quantified precondition; it enters as INSTANCES: at the lower bounds of the operation key and of the ghost view key and their predecessors, at the ghost index and its predecessor, at the last entry, at the cursor, and at every index probed by the binary search (ghost statement VERIF_GHOST_GET_REFCOUNT_EL_PROBE = assume of the instance at mid; sound because the list has not been written since the state the invariant speaks about); the lower bounds are arbitrary ghost values constrained only by these instances",
-  "needs the ghost anchor of hooks-pending/ds.diff in e2fsck/ea_refcount.c",
-  "realloc / memmove of the list by ghost-index specifications (C standard semantics at the ghost index, rest of the object havocked)",
-  "scenario 'shrink': count == size on entry and refcount_collapse (replaced by its contract: well-formed result, same views, lower bounds reported in ghosts; proved for lists of up to 4 entries by ea_collapse_B4) drops at least one entry; the complementary outcome is unit ea_refcount_store_grow; the resize is then unreachable (obligation)",
   "the contract of the operation is stated by the harness (ASSUME precondition, CHECK postconditions) \u2014 no frame (assigns) obligations in this unit: enforcing the frame on the insertion paths exceeds the memory limit; the frame of the lookup paths is checked by ea_refcount_fetch / ea_refcount_decrement"
  ],
  "native": false
@@ -344,7 +254,7 @@
   "well_formed (strictly ascending keys) is a universally quantified precondition; it enters as INSTANCES: at the lower bounds of the operation key and of the ghost view key and their predecessors, at the ghost index and its predecessor, at the last entry, at the cursor, and at every index probed by the binary search (ghost statement VERIF_GHOST_GET_REFCOUNT_EL_PROBE = assume of the instance at mid; sound because the list has not been written since the state the invariant speaks about); the lower bounds are arbitrary ghost values constrained only by these instances",
   "needs the ghost anchor of hooks-pending/ds.diff in e2fsck/ea_refcount.c",
   "realloc / memmove of the list by ghost-index specifications (C standard semantics at the ghost index, rest of the object havocked)",
-  "scenario 'grow': count == size on entry and refcount_collapse (replaced by its contract, see ea_collapse_B4) drops nothing; the complementary outcome is unit ea_refcount_store_shrink; the 'goto retry' back edge is then never taken (unwinding assertion)",
+  "scenario 'grow': count == size on entry and refcount_collapse (replaced by its contract, see ea_collapse_B4) drops nothing; the complementary outcome ('shrink': an entry was dropped, the code jumps back to 'retry' and starts over on the collapsed list, which has room) exceeds the memory limit as one query; it is the composition of a lookup (frame: ea_refcount_fetch), the collapse contract and the 'room' scenario, and is exercised with the real code on small lists by ea_sequence_B; the 'goto retry' back edge is then never taken (unwinding assertion)",
   "the contract of the operation is stated by the harness (ASSUME precondition, CHECK postconditions) \u2014 no frame (assigns) obligations in this unit: enforcing the frame on the insertion paths exceeds the memory limit; the frame of the lookup paths is checked by ea_refcount_fetch / ea_refcount_decrement"
  ],
  "native": false
@@ -416,6 +326,8 @@ static void build(void)
 	ea_gI = IN.i;
 	ea_gV = IN.v0;
 	ea_gCount0 = IN.count;
+	ea_gExA = IN.exa;
+	ea_gKeyI0 = IN.keyi; ea_gValI0 = IN.vali;
 	ea_collapsed = 0;
 	ea_gPA2 = ea_gPK2 = ea_gCount2 = 0;
 	ea_dec = 0;
